@@ -265,6 +265,9 @@ def run(db, tier):
     rep.extra["casts_in_encode_args_closures_and_helpers"] = n_aux
     rep.floor("functions in the encode_args closure/helper scope", len(scope), 5)
 
+    from props import c15
+    rep.absorb(c15.run(db, tier), rules=("R-LAYER-ORDER", "R-FIT", "R-NOREPLACE"), why="string arguments are part of the argument codec")
+
     # ---- R-NOREG
     calls = [t.get("f") for _, t in fe.calls()]
     has = "llir::LanguageHooks::has_registers" in calls
